@@ -20,7 +20,9 @@ Inductive hop :=
 | HSubmit (valid gate_open : bool)
 | HStart (id : nat)
 | HWait (id : nat)
-| HStatus (id : nat)
+| HStatus (id : nat) (more : list res) (ended : bool)
+                             (* the iterator: the pair's result is the first one delivered, `more` the following
+                                ones (the consumer stops after 3), `ended`: the iteration stopped by itself *)
 | HPlan (id : nat)
 | HAwait (id : nat)          (* poll the stored status until it is Running or terminal *)
 | HOpen (id : nat)           (* open the plan's gate: its plugins may now return *)
@@ -152,6 +154,28 @@ Definition narrowed (id : nat) (outs : list (st * res)) (obs : res) : list pst :
 Definition status_of (p : pst) : option status :=
   match stored p with Some x => Some (pl_status x) | None => None end.
 
+Definition is_running (r : res) : bool := res_eqb r (RStatus Running).
+
+(* results delivered by the Status iterator, in order: each must be producible by a read of the model *)
+Fixpoint status_iter (c : cfg) (gate : bool) (id : nat) (rs : list res) (front : list st) : option (list pst) :=
+  match rs with
+  | [] => Some (dedupe pst_eqb (map (fun s => get s id) front))
+  | r :: rest =>
+      match filter (fun o => res_eqb (snd o) r) (explore c gate id [LStatus id] front) with
+      | [] => None
+      | outs => status_iter c gate id rest (dedupe (same_at id) (map fst outs))
+      end
+  end.
+
+(* every result but the last is "Running" (otherwise the loop would have returned), and when the loop ended
+   by itself the last one is not *)
+Fixpoint status_shape_ok (rs : list res) (ended : bool) : bool :=
+  match rs with
+  | [] => false
+  | [r] => if ended then negb (is_running r) else true
+  | r :: rest => is_running r && status_shape_ok rest ended
+  end.
+
 (* one observed op; None = the model has no state that does this *)
 Definition check_op (c : cfg) (cs : cst) (o : hop * res) : option cst :=
   let '(op, obs) := o in
@@ -173,7 +197,14 @@ Definition check_op (c : cfg) (cs : cst) (o : hop * res) : option cst :=
       | None => None
       end
   | HStart id => call id [LStartEnter id; LStartCheck 0; LStartRead 0; LStartLaunch 0]
-  | HStatus id => call id [LStatus id]
+  | HStatus id more ended =>
+      (* the loop of Workstream.Status: one read per tick; it goes on exactly while the plan read is Running *)
+      let '(ps, gate) := cands cs id in
+      match status_iter c gate id (obs :: more) (map (mk (c_now cs) id) ps) with
+      | Some ps' =>
+          if status_shape_ok (obs :: more) ended then Some (set_cands cs id ps') else None
+      | None => None
+      end
   | HPlan id => call id [LPlan id]
   | HWait id =>
       let '(ps, gate) := cands cs id in
@@ -272,7 +303,13 @@ Definition mon_op (ms : Z) (m : mst) (o : hop * res) : nat * mst :=
           | _ => (O, m)
           end
       end
-  | HWait id | HStatus id | HPlan id => (if on_missing id then 5%nat else O, m)
+  | HWait id | HPlan id => (if on_missing id then 5%nat else O, m)
+  | HStatus id more _ =>
+      if existsb is_panic more then (1%nat, m)
+      else match m_get m id with
+           | None => (if forallb is_error (obs :: more) then O else 5%nat, m)
+           | Some _ => (O, m)
+           end
   | HAwait _ | HOpen _ => (O, m)
   | HTick d => (O, {| m_ids := m_ids m; m_now := m_now m + d |})
   | HDelete id => (O, {| m_ids := upd_nth id None (m_ids m); m_now := m_now m |})
